@@ -145,14 +145,26 @@ def case_finite(ctx, i):
                 ref = new * (np.linalg.norm(ref) / np.linalg.norm(new) if renorm else 1.0)
                 ctx.count('op.apply_local_op')
             elif op == 'apply_local_term':
-                term = C8.rand_term(rng, sites, nops=int(rng.integers(1, 4)))
+                # (a term with an odd number of fermionic operators changes the parity sector: allowed for apply_local_term, the
+                #  Jordan-Wigner string then extends to the left end of the chain)
+                odd_ok = all(getattr(s_, 'charge_to_JW_parity', None) is not None for s_ in sites)  # (else a documented refusal)
+                term = C8.rand_term(rng, sites, nops=int(rng.integers(1, 4)), even_fermions=bool(rng.random() < 0.6) or not odd_ok)
+                if sum(1 for n_, k_ in term if sites[k_].op_needs_JW(n_)) % 2 == 1:
+                    ctx.count('op.apply_local_term_odd_fermions')
                 chinfo = sites[0].leg.chinfo
                 M = dense.term_matrix(sites, term)
                 new = (M @ ref.reshape(-1)).reshape(ref.shape)
                 if np.linalg.norm(new) < 1e-6 * max(np.linalg.norm(ref), 1e-300):
                     continue
-                steps.append(['apply_local_term', term])
-                psi.apply_local_term(term)
+                # the same term written relative to another origin (documented: `i_offset` is added to all site indices)
+                off = int(rng.integers(-2, 3)) if rng.random() < 0.5 else 0
+                term_call = [(n_, j_ - off) for n_, j_ in term]
+                steps.append(['apply_local_term', term_call, {'i_offset': off}])
+                if off:
+                    ctx.count('op.apply_local_term_with_offset')
+                    psi.apply_local_term(term_call, i_offset=off)
+                else:
+                    psi.apply_local_term(term)
                 ref = new
                 if not np.iscomplexobj(ref) and np.iscomplexobj(new):
                     ref = new
@@ -398,9 +410,29 @@ def case_infinite(ctx, i):
     case = {'sites': kind, 'L': L, 'chi': chi, 'forms': forms}
     n = int(rng.integers(1, 3))
     base = [window_rho(psi, k, n) for k in range(L)]
-    op = str(rng.choice(['roll', 'roll', 'enlarge', 'roll+enlarge', 'inversion']))
+    op = str(rng.choice(['roll', 'roll', 'enlarge', 'roll+enlarge', 'inversion', 'compress']))
     case['op'] = op
     try:
+        if op == 'compress':
+            # compression of an infinite state: the change per unit cell is bounded by the reported truncation error (the sum over
+            # all bonds of the unit cell; observed ratio infidelity / eps on the unchanged library: 0.5 - 1.0)
+            if max(psi.chi) < 2:
+                raise _Skip()
+            orig = psi.copy()
+            chi_max = int(rng.integers(1, max(psi.chi)))
+            method = str(rng.choice(['compress_svd', 'compress(SVD)']))
+            tp = {'chi_max': chi_max, 'svd_min': 1e-14, 'trunc_cut': None}
+            err = psi.compress_svd(tp) if method == 'compress_svd' else psi.compress({'compression_method': 'SVD', 'trunc_params': tp})
+            psi.test_sanity()
+            ctx.count('infinite.compress')
+            case['compress'] = [method, chi_max]
+            ov = abs(orig.overlap(psi, understood_infinite=True)) if 'understood_infinite' in orig.overlap.__code__.co_varnames else abs(orig.overlap(psi))
+            infid = 1 - ov**2
+            ctx.obs.setdefault('inf_compress_ratio', []).append([float(infid), float(err.eps)])
+            if not (infid <= 3 * err.eps + 1e-9):
+                ctx.violation('%s(infinite):change-exceeds-reported-truncation-error' % method.split('(')[0],
+                              '1 - |<psi|psi_c>|^2 per unit cell = %g, reported eps %g (chi %r -> %d)' % (infid, err.eps, list(orig.chi), chi_max), case)
+            return
         if op == 'inversion':
             base1 = [window_rho(psi, k, 1) for k in range(L)]
             psi.spatial_inversion()
